@@ -44,7 +44,7 @@ WALL_LIMIT = {('C02', 'quick'): 240, ('C02', 'thorough'): 240}
 PROBES = {
     'C01': ['cycle', 'diamond', 'self_link', 'duplicate_link', 'alt_spelling', 'redirect', 'requisites', 'css_url', 'concurrency>1',
             'depth_limited', 'no_parent', 'regex', 'multi_start', 'redirect_target_also_linked', 'depth_race_possible', 'keepalive_off'],
-    'C02': ['offered_foreign_host', 'offered_upward_path', 'offered_deep', 'offered_regex_rejected', 'offered_excluded_dir',
+    'C02': ['robots_fetch_failed', 'offered_foreign_host', 'offered_upward_path', 'offered_deep', 'offered_regex_rejected', 'offered_excluded_dir',
             'offered_rejected_suffix', 'cross_host_redirect', 'waiver_used', 'retry', 'requests_attributed', 'span_hosts_allow',
             'domains', 'hostnames', 'https_only', 'tries'],
     'C20': ['robots_disallow', 'robots_allow_all', 'robots_404', 'robots_5xx', 'robots_redirect', 'robots_big', 'robots_netfault', 'nofollow_page',
@@ -638,6 +638,12 @@ def gen_c02(tape, tier):
         if cand:
             f = cand[tape.draw(len(cand), 'site.flaky.which')]
             flaky.append((f, tape.choice((1, 2, 5, 30), 'site.flaky.n')))
+    # robots.txt of an origin (the own one or the target of a redirect) failing for a while
+    site.flaky_robots = []
+    if opts['robots'] and tape.chance(1, 2, 'site.flaky_robots'):
+        for o in site.origins:
+            if tape.chance(1, 2, 'site.flaky_robots.o'):
+                site.flaky_robots.append((o, tape.choice((1, 2, 5, 30), 'site.flaky_robots.n'), tape.choice(('503', 'reset'), 'site.flaky_robots.kind')))
     site.finalize()
     return site, starts, opts, flaky
 
@@ -646,6 +652,17 @@ def judge_c02(r, site, starts, opts, out, rows, own_hosts=None, phase=''):
     P = 'C02'
     server = out['server']
     own = own_hosts if own_hosts is not None else sorted({s.origin.host for s in starts})
+    # the retry limit, counted independently of the recorded try count: runs of the item that requested its own URL
+    runs = {}
+    for e in server.log:
+        rec = e['rec']
+        if rec is not None and rec.get('item_run') is not None and canon(e['url']) == canon(rec['url']):
+            runs.setdefault(canon(rec['url']), set()).add(rec['item_run'])
+    tries = opts.get('tries') or 20
+    for u, ss in runs.items():
+        if len(ss) > tries:
+            r.violate(P, 'out-of-scope-request', 'first-request:tries:counted-by-item-runs' + (':resumed' if phase else ''),
+                      '%s was requested in %d separate runs of its item although --tries is %d%s' % (u, len(ss), tries, phase))
     for e in server.log:
         rec = e['rec']
         if rec is None:
@@ -685,6 +702,16 @@ def judge_c02_robots(r, site, starts, opts, out, own_hosts=None, phase=''):
         if rec is None or e['target'] == '/robots.txt':
             continue
         visited.setdefault(rec['url'], set()).add(e.get('origin') or refscope.parse(canon(e['url']))['host'])
+        # the origin an allowed request was redirected to is "being visited" as well: its robots.txt is obtained BEFORE the
+        # hop is requested (and the hop is not made at all if that fetch fails)
+        res = site.lookup(e.get('origin'), e.get('target')) if e.get('origin') else None
+        if res is not None and res.kind == 'redirect' and res.redirect_to is not None:
+            record = {'level': rec['level'], 'inline_level': rec['inline_level'], 'try_count': rec['try_count'],
+                      'parent': refscope.parse(canon(rec['parent_url'])) if rec['parent_url'] else None,
+                      'root': refscope.parse(canon(rec['root_url'])) if rec['root_url'] else None}
+            ok, failed = refscope.passes(refscope.parse(canon(res.redirect_to.url)), record, opts, own)
+            if ok or (opts.get('strong_redirects', True) and failed == ['span_hosts']):
+                visited[rec['url']].add(res.redirect_to.origin.key())
     for e in server.log:
         rec = e['rec']
         if rec is None or e['target'] != '/robots.txt':
@@ -753,6 +780,22 @@ def run(tape, prop, tier):
         argv = argv_for(opts, [s.url for s in starts], dbpath)
 
         def setup(h, server, net):
+            for o, n, kind in getattr(site, 'flaky_robots', []):
+                st = {'left': n}
+
+                def rbeh(conn, entry, rs, st=st, kind=kind):
+                    entry['robots'] = True
+                    if st['left'] > 0:
+                        st['left'] -= 1
+                        r.faults['robots_' + kind] += 1
+                        r.probes['robots_fetch_failed'] += 1
+                        if kind == '503':
+                            server.send(conn, 503, 'Busy', [('Content-Type', 'text/plain')], b'busy')
+                        else:
+                            conn.reset()
+                    else:
+                        server.send(conn, 404, 'Not Found', [('Content-Type', 'text/plain')], b'no robots here')
+                server.behaviour[(o.key(), '/robots.txt')] = rbeh
             for res, n in flaky:
                 state = {'left': n}
 
